@@ -1248,19 +1248,23 @@ def c06(ctx):
             ctx.note("model fault without implementation fault on %s" % k["op"][:80])
     # (2) work grows linearly: instruction counts (callgrind) for n, 2n, 4n per input family; deterministic, no wall-clock
     sizes = [2048, 4096, 8192] if ctx.tier == "quick" else [4096, 8192, 16384, 32768, 65536]
-    fams = {"atom": lambda n: b"a" * min(n, 64) + b"@" + (b"a" * 60 + b".") * (n // 61), "dots": lambda n: b"a@" + b"a." * (n // 2),
-            "quoted": lambda n: b'"' + b"\\a" * (n // 2) + b'"@b.com', "utf8": lambda n: "é".encode() * (n // 2) + b"@b.com",
-            "ipv6": lambda n: b"a@[IPv6:" + b"1:" * (n // 2) + b"]", "ipv4": lambda n: b"a@[" + b"1." * (n // 2) + b"]",
-            "hyphen": lambda n: b"a@" + b"a-" * (n // 2) + b"a.com", "labels": lambda n: b"a@" + b".".join([b"x"] * (n // 2)) + b".test"}
+    E = lambda s: ["E %d 1 %s" % (m, hx(s)) for m in MODES]
+    Lo = lambda s: ["L %d %s %s" % (m, hx(s), hx(gen.AT)) for m in MODES]
+    fams = {"domain-labels": lambda n: E(b"a@" + (b"a" * 60 + b".") * (n // 61) + b"com"), "domain-dots": lambda n: E(b"a@" + b"a." * (n // 2)),
+            "local-atom": lambda n: Lo(b"ab." * (n // 3) + b"a"), "local-quoted": lambda n: Lo(b'"' + b"\\a" * (n // 2) + b'"'),
+            "local-utf8": lambda n: Lo("é".encode() * (n // 2)), "local-folding": lambda n: Lo(b'"' + b"\r\n " * (n // 3) + b'"'),
+            "ipv6-hexrun": lambda n: ["6 %s %s" % (hx(b"1::" + b"f" * n), hx(b"]\0"))], "ipv4-octets": lambda n: E(b"a@[" + b"1." * (n // 2) + b"]"),
+            "domain-hyphen": lambda n: E(b"a@" + b"a-" * (n // 2) + b"a.com"), "special-labels": lambda n: E(b"a@" + b".".join([b"x"] * (n // 2)) + b".test"),
+            "tld-miss": lambda n: E(b"a@" + b"x." * (n // 2) + b"zzzzzz")}
     lin = {}
     for fam, mk in fams.items():
         counts = []
         for n in sizes:
             fi = os.path.join(ctx.scr.dir, "cg_%s_%d.in" % (fam, n))
             with open(fi, "w") as f:
-                f.write("\n".join("E %d 1 %s" % (m, hx(mk(n))) for m in MODES) + "\n")
+                f.write("\n".join(mk(n)) + "\n")
             cgout = fi + ".cg"
-            p = subprocess.run(["valgrind", "--tool=callgrind", "--callgrind-out-file=" + cgout, "--toggle-collect=is_*_email", ctx.drive("x:plain"), fi, fi + ".out", fi + ".lean"],
+            p = subprocess.run(["valgrind", "--tool=callgrind", "--callgrind-out-file=" + cgout, "--toggle-collect=" + ("is_*_local" if fam.startswith("local") else "is_ipv6" if fam.startswith("ipv6") else "is_*_email"), ctx.drive("x:plain"), fi, fi + ".out", fi + ".lean"],
                                stdout=subprocess.PIPE, stderr=subprocess.PIPE)
             ir = None
             if os.path.exists(cgout):
@@ -1289,6 +1293,124 @@ RULES["C06"] = "distinct ops executed under ASan+UBSan+LSan with exact-size heap
 VARIANTS_OF["C06"] = {"quick": ["default", "extra", "x:plain"], "thorough": ["default", "extra", "all3", "x:plain"]}
 TRUSTED_EXTRA["C06"] = ["what the compiled C actually reads and writes is a runtime fact: ASan/UBSan/LSan on every correspondence stream, valgrind memcheck and callgrind carry that half; the model-level no-fault statements are about the model"]
 
+
+# ===================================================================== C20
+def errors_table():
+    txt = open(os.path.join(LEAN, "Eav/Gen/Enums.lean"), encoding="utf-8").read()
+    m = re.search(r"def errorsRuntime : List String := \[(.*?)\]\n", txt, flags=re.S)
+    return re.findall(r'"((?:[^"\\]|\\.)*)"', m.group(1))
+
+
+def idn2_strerror(rc):
+    import ctypes, ctypes.util
+    lib = ctypes.CDLL(ctypes.util.find_library("idn2") or "libidn2.so.0")
+    lib.idn2_strerror.restype = ctypes.c_char_p
+    return lib.idn2_strerror(int(rc)).decode()
+
+
+def spec_trim(rec):
+    """the property's description of the tool's trimming: line terminator, one leading space, one trailing blank"""
+    if rec.endswith(b"\r\n"): rec = rec[:-2]
+    elif rec.endswith(b"\n"): rec = rec[:-1]
+    if rec.startswith(b"#"): return None
+    if rec.startswith(b" "): rec = rec[1:]
+    if rec.endswith(b" ") or rec.endswith(b"\t"): rec = rec[:-1]
+    return rec
+
+
+def c20(ctx):
+    rng = ctx.rng
+    errs = errors_table()
+    corpus = [s for s in diag_corpus(ctx) if 0 not in s and b"\n" not in s]
+    shapes = [b"", b" ", b"  ", b"\t", b"#comment", b"# a@b.com", b" #notcomment@b.com", b"a@b.com", b" a@b.com", b"a@b.com ", b"a@b.com\t", b" a@b.com \t", b"a@b.com  ",
+              b"\xff", b"a\xff@b.com", b"\xc3", b"\xe2\x82", b"a@b.com\r", b"a\rb@c.com", b"\r", b"a@\x01.com", b"\x7f@b.com", "ж@почта.рф".encode(), "пример@почта.рф ".encode(),
+              b"a" * 3000 + b"@b.com", "ж".encode() * 2000 + b"@b.com", b"\x01" * 700, b"x" * 8192, b"a@" + b"b." * 4000 + b"com", b"\xff" * 2100, b"a@b.com" + b" " * 3000]
+    files = []
+    terms = [b"\n", b"\r\n"]
+    for sh in shapes:
+        for term in terms:
+            for final in (True, False):
+                files.append(sh + (term if final else b""))
+                files.append(b"first@ok.com" + term + sh + (term if final else b""))
+    n = 60 if ctx.tier == "quick" else 600
+    for _ in range(n):
+        lines = []
+        for _ in range(rng.randint(0, 12)):
+            r = rng.random()
+            if r < 0.5: ln = rng.choice(corpus)
+            elif r < 0.8: ln = rng.choice(shapes)
+            else: ln = bytes(rng.randint(1, 255) for _ in range(rng.randint(0, 40))).replace(b"\n", b"")
+            lines.append(ln + rng.choice(terms))
+        f = b"".join(lines)
+        if rng.random() < 0.3 and f:
+            f = f[:-1] if f.endswith(b"\n") else f
+        files.append(f)
+    files = list(dict.fromkeys(files))
+    exe = ctx.drive("x:cli")
+    env = dict(os.environ, LC_ALL="C", ASAN_OPTIONS="detect_leaks=1:exitcode=99", UBSAN_OPTIONS="halt_on_error=1",
+               LD_LIBRARY_PATH=os.path.dirname(os.path.dirname(exe)))
+    trims = ctx.spec(["Ft %s" % hx(f) for f in files])
+    for idx, (f, tl) in enumerate(zip(files, trims)):
+        model_lines = [bytes.fromhex(x) if x != "-" else b"" for x in tl.split(" ")[1:]] if tl.strip() != "Ft" else []
+        fn = os.path.join(ctx.scr.dir, "cli_%d.txt" % idx)
+        open(fn, "wb").write(f)
+        p = subprocess.run([exe, fn], stdout=subprocess.PIPE, stderr=subprocess.PIPE, env=env)
+        ctx.evals += 1
+        ctx.nontrivial.add(hx(f[:200]) + ":%d" % len(f))
+        op = "cli " + (hx(f) if len(f) < 400 else hx(f[:200]) + "...(%d bytes)" % len(f))
+        if p.returncode != 0:
+            ctx.S("the eav tool does not terminate normally (exit %d)" % p.returncode, op=op, stderr=p.stderr.decode(errors="replace")[-700:])
+            continue
+        # spec trimming (no NUL in these files) versus the model of the tool
+        recs = [r for r in re.findall(rb"[^\n]*\n|[^\n]+$", f)]
+        want_lines = [t for t in (spec_trim(r) for r in recs) if t is not None]
+        if want_lines != model_lines:
+            ctx.k_fail.append(dict(stream="cli-trim", variant="x:cli", op=op, impl=repr(want_lines)[:300], model=repr(model_lines)[:300]))
+            continue
+        # library verdicts for the trimmed lines (default settings), and the model's rendering of each line
+        vops = ["P 6531 1 760 %s" % hx(l) for l in want_lines]
+        verd = ctx.K("cli-verdict", "default", vops, nontrivial=lambda op, ln: False) if vops else []
+        echo = ctx.spec(["Fs %s" % hx(l) for l in want_lines])
+        out = p.stdout.split(b"\n")
+        k = 0
+        ok = True
+        for l, v, e in zip(want_lines, verd, echo):
+            fv = fields(v)
+            ehex = e.split(" ")[1]
+            etxt = bytes.fromhex(ehex) if ehex != "-" else b""
+            head = (b"PASS: " if fv[1] == "1" else b"FAIL: ")
+            if k >= len(out) or not out[k].startswith(head):
+                ctx.S("verdict printed by the tool differs from the library's decision for the trimmed line", op=op, line=repr(l[:100]), library=v, printed=repr(out[k][:120]) if k < len(out) else None)
+                ok = False; break
+            printed = out[k][6:]
+            clean = True
+            try:
+                txt = l.decode("utf-8")
+                clean = not any(ord(ch) < 32 or ord(ch) == 127 for ch in txt)
+            except UnicodeDecodeError:
+                clean = False
+            if clean and printed != l:
+                ctx.S("a well-formed UTF-8 line without control characters is not echoed unchanged", op=op, line=repr(l[:100]), printed=repr(printed[:120]))
+                ok = False; break
+            if printed != etxt:
+                ctx.k_fail.append(dict(stream="cli-echo", variant="x:cli", op=op, impl=repr(printed[:200]), model=repr(etxt[:200])))
+                ok = False; break
+            k += 1
+            if fv[1] != "1":
+                msg = fv[3]
+                want = errs[int(msg[1:])] if msg.startswith("m") else idn2_strerror(msg[5:]) if msg.startswith("idn:#") else None
+                if k >= len(out) or out[k] != b"      " + (want or "").encode():
+                    ctx.S("FAIL is not followed by the library's error message", op=op, line=repr(l[:100]), expected=want, printed=repr(out[k][:120]) if k < len(out) else None)
+                    ok = False; break
+                k += 1
+        if ok and [x for x in out[k:] if x != b""]:
+            ctx.S("the tool prints more than one verdict per non-comment line", op=op, extra=repr(out[k:k + 3]))
+        if len(ctx.samples) < 10 and rng.random() < 0.05:
+            ctx.samples.append(dict(file=repr(f[:120]), stdout=repr(p.stdout[:200])))
+RULES["C20"] = "distinct input files: 31 line shapes (empty, blanks, comments, trimming cases, invalid UTF-8, embedded CR, 2-8 KiB lines) x LF/CRLF x final newline x position, random files of 0-12 lines from the address corpora and random bytes; the real binary under ASan+UBSan+LSan"
+VARIANTS_OF["C20"] = {"quick": ["default", "x:cli"], "thorough": ["default", "x:cli"]}
+TRUSTED_EXTRA["C20"] = ["stdio, getline's reallocation and process exit are runtime behaviour observed on the real binary; the trimming and the rendering of a line are modelled (Eav/Cli.lean) and compared with the binary's output"]
+
 PROPS = collections.OrderedDict()
 PROPS["C01"] = c01
 PROPS["C02"] = c02
@@ -1309,6 +1431,7 @@ PROPS["C16"] = c16
 PROPS["C17"] = c17
 PROPS["C18"] = c18
 PROPS["C19"] = c19
+PROPS["C20"] = c20
 
 
 def replay(ctx, path):
